@@ -732,6 +732,15 @@ func c12Dists(c *Ctx, p *Prog) {
 						res.Args[1].Args[len(res.Args[1].Args)-1].Op == "unop" && res.Args[1].Args[len(res.Args[1].Args)-1].Tok == token.SUB
 					d = "F(x) for negative x must be 1 - F(-x)"
 				}
+				if !ok {
+					// without recursion: F(-x) written out (x enters through x² only), so F(x) = 1 - (1 - I/2)
+					ok2, _ := ufEqual(res, func(g func(string) *big.Rat) *big.Rat {
+						x, v := g("x"), g("v")
+						fpos := rSub(rat(1, 1), rMul(rat(1, 2), uf("mathBetaInc", rQuo(v, rAdd(v, rMul(x, x))), rQuo(v, rat(2, 1)), rat(1, 2))))
+						return rSub(rat(1, 1), fpos)
+					}, pts[1:], leaf)
+					ok = ok2
+				}
 				c.Check(ok, R, "TDist.CDF[x<0]", site, "F(x) = 1 - F(-x)", "t CDF reflection: "+d)
 			}
 		}
